@@ -72,6 +72,15 @@ def scene(mix, shape, D, step_cm=50, flow=(0, 0, 0), prior="none", expect=None):
 
         def dens(n):
             return PythonFunction3D(lambda x, y, z: (3.0 if (x - o.x) * u.x + (y - o.y) * u.y + (z - o.z) * u.z > 0.5 else 1.0) * n * NU)
+    elif prior == "edge":
+        # vacuum up to 1.03 m along the beam axis, then the plasma sets in abruptly, ten times denser (a sharp edge between two
+        # attenuation nodes)
+        from raysect.core import Point3D
+        from raysect.core.math.function.float.function3d.autowrap import PythonFunction3D
+        o, w = Point3D(0, 0, 0).transform(xf), Vector3D(0, 0, 1).transform(xf)
+
+        def dens(n):
+            return PythonFunction3D(lambda x, y, z: (10.0 * n * NU) if (x - o.x) * w.x + (y - o.y) * w.y + (z - o.z) * w.z > 1.03 else 0.0)
     else:
         def dens(n):
             return Constant3D(n * NU)
@@ -178,6 +187,18 @@ def extra_checks(v):
     f = [beam0.density(0, 0, z) * 2 * math.pi * math.sqrt((0.04 + z * z * 0.01) * (0.04 + z * z * 0.09)) for z in zs]
     if max(f) - min(f) > 1e-9 * max(f):
         viol.append({"sig": "flux-not-conserved-without-stopping", "detail": f"{min(f)} .. {max(f)}"})
+    # a plasma that sets in abruptly along the beam: before the edge the flux is the injected one, it never increases with z and
+    # never exceeds the injected flux (BeamDensity.tla: Monotone, NoStoppingConservesFlux), for two attenuation steps
+    for step in (50, 7):
+        beam_e, _ = scene([[1, 4, 2, 1], [6, 1, 1, 2]], [2, 1, 3, 30, True, 3], 10, step_cm=step, prior="edge")
+        zf = [i * 0.01 for i in range(0, 301)]
+        fe = [beam_e.density(0, 0, z) * 2 * math.pi * math.sqrt((0.04 + z * z * 0.01) * (0.04 + z * z * 0.09)) for z in zf]
+        inj = f[0]
+        if any(b > a * (1 + 1e-9) for a, b in zip(fe, fe[1:])):
+            k = next(i for i, (a, b) in enumerate(zip(fe, fe[1:])) if b > a * (1 + 1e-9))
+            viol.append({"sig": "on-axis-flux-increases-with-z:plasma-edge", "detail": f"step {step} cm: flux {fe[k]!r} at z = {zf[k]}, {fe[k + 1]!r} at z = {zf[k + 1]}"})
+        elif max(fe) > inj * (1 + 1e-9):
+            viol.append({"sig": "flux-exceeds-the-injected-flux:plasma-edge", "detail": f"step {step} cm: {max(fe)!r} vs {inj!r}"})
     return viol
 
 
